@@ -20,6 +20,7 @@ import (
 	"github.com/idena-network/idena-go/deferredtx"
 	models "github.com/idena-network/idena-go/protobuf"
 	"github.com/idena-network/idena-go/protocol"
+	"pgregory.net/rapid"
 )
 
 func mk[T any](name string, enc func(*T) ([]byte, error), dec func(*T, []byte) error, opts ...func(*spec)) *spec {
@@ -43,6 +44,39 @@ func mk[T any](name string, enc func(*T) ([]byte, error), dec func(*T, []byte) e
 func skip(path, reason string) func(*spec) { return func(s *spec) { s.skip[path] = reason } }
 func nonNil(path string) func(*spec)       { return func(s *spec) { s.nonNil[path] = true } }
 func hashOf(h hashSpec) func(*spec)        { return func(s *spec) { s.hashes = append(s.hashes, h) } }
+
+func init() {
+	// A header is either an empty-block header or a proposed header; the other shapes
+	// (both, neither) are encodable too and are kept as rare cases.
+	typeFix[reflect.TypeOf(types.Header{})] = func(g *genCtx, v reflect.Value) {
+		h := v.Addr().Interface().(*types.Header)
+		gen := func(dst interface{}) {
+			save := g.bias
+			if g.bias == 2 {
+				g.bias = 0
+			}
+			g.fill(reflect.ValueOf(dst).Elem(), ".Header.fix", 1)
+			g.bias = save
+		}
+		switch k := rapid.IntRange(0, 19).Draw(g.t, "headerKind"); {
+		case k <= 8: // proposed
+			h.EmptyBlockHeader = nil
+			if h.ProposedHeader == nil {
+				h.ProposedHeader = new(types.ProposedHeader)
+				gen(h.ProposedHeader)
+			}
+		case k <= 17: // empty
+			h.ProposedHeader = nil
+			if h.EmptyBlockHeader == nil {
+				h.EmptyBlockHeader = new(types.EmptyBlockHeader)
+				gen(h.EmptyBlockHeader)
+			}
+		case k == 18: // as generated (often both)
+		default:
+			h.EmptyBlockHeader, h.ProposedHeader = nil, nil
+		}
+	}
+}
 
 // receiptsBox wraps the list type types.TxReceipts (its FromBytes returns a new list).
 type receiptsBox struct{ Receipts types.TxReceipts }
@@ -100,7 +134,8 @@ func buildSpecs() []*spec {
 	add(mk("types.TxReceipt", (*types.TxReceipt).ToBytes, (*types.TxReceipt).FromBytes))
 	add(mk("types.TransactionIndex", (*types.TransactionIndex).ToBytes, (*types.TransactionIndex).FromBytes))
 	add(mk("types.TxReceiptIndex", (*types.TxReceiptIndex).ToBytes, (*types.TxReceiptIndex).FromBytes))
-	add(mk("types.SavedTransaction", (*types.SavedTransaction).ToBytes, (*types.SavedTransaction).FromBytes))
+	add(mk("types.SavedTransaction", (*types.SavedTransaction).ToBytes, (*types.SavedTransaction).FromBytes,
+		nonNil(".Tx"))) // Repo.SaveTx, the only producer, always has the transaction; Tx == nil is probed by TestSavedTransactionWithoutTx
 	add(mk("types.BurntCoins", (*types.BurntCoins).ToBytes, (*types.BurntCoins).FromBytes))
 	add(mk("types.SavedEvent", (*types.SavedEvent).ToBytes, (*types.SavedEvent).FromBytes))
 	add(mk("types.ActivityMonitor", (*types.ActivityMonitor).ToBytes, (*types.ActivityMonitor).FromBytes))
@@ -116,7 +151,8 @@ func buildSpecs() []*spec {
 		// size table holds exactly those shards (that is how SetShardsNum/SetShardSize are used).
 		s.ranges[".ShardsNum"] = [2]uint64{0, 8}
 		s.valueOnlyMaps[".ShardSizes"] = true
-		s.fix = func(o interface{}) {
+		s.dependent = map[string]bool{".ShardsNum": true}
+		s.fix = func(_ *rapid.T, o interface{}) {
 			g := o.(*state.Global)
 			var vals []uint32
 			var keys []common.ShardId
@@ -181,6 +217,20 @@ func buildSpecs() []*spec {
 		skip(".Txs[].sendTry", "node-local retry counter of the deferred-tx job, deliberately restarted after a restart; not consensus data"),
 		skip(".Txs[].removed", "node-local tombstone of the deferred-tx job; removed entries are filtered before saving"),
 	))
+	// more objects per test case for the consensus-critical types with many fields
+	for name, w := range map[string]int{"types.Transaction": 3, "types.Header": 3, "types.Block": 2, "types.Vote": 2,
+		"types.BlockCert": 2, "types.BlockProposal": 2, "types.TxReceipt": 2, "state.Account": 2, "state.Identity": 3,
+		"state.Global": 3, "state.ApprovedIdentity": 2, "protocol.blockRange": 2, "protocol.handshakeData": 2} {
+		found := false
+		for _, s := range l {
+			if s.name == name {
+				s.weight, found = w, true
+			}
+		}
+		if !found {
+			panic("weight for unknown type " + name)
+		}
+	}
 	return l
 }
 
